@@ -378,15 +378,18 @@ def standin_control_values(tier, seed):
             ctrls = [cirq.LineQid(i, dimension=d) for i, d in enumerate(dims)]
             targets = [cirq.LineQid(10 + i, dimension=2) for i in range(nt)]
             qs = ctrls + targets
-            for cv in itertools.product(*[range(d) for d in dims]):
+            # every control takes one value or a SET of values (a control on "0 or 1", on "0 or 2")
+            options = [list(range(d)) + [(0, 1)] + ([(0, 2)] if d == 3 else []) for d in dims]
+            for cv in itertools.product(*options):
                 cases += 1
                 D = int(np.prod(dims))
                 T = 2 ** nt
                 want = np.eye(D * T, dtype=complex)
-                idx = 0
-                for v, d in zip(cv, dims):
-                    idx = idx * d + v
-                want[idx * T:(idx + 1) * T, idx * T:(idx + 1) * T] = cirq.unitary(sub)
+                for combo in itertools.product(*[(v,) if isinstance(v, int) else v for v in cv]):
+                    idx = 0
+                    for v, d in zip(combo, dims):
+                        idx = idx * d + v
+                    want[idx * T:(idx + 1) * T, idx * T:(idx + 1) * T] = cirq.unitary(sub)
                 args = dict(sub_gate=sname, control_dimensions=list(dims), control_values=list(cv))
                 try:
                     forms = {
